@@ -1,4 +1,243 @@
-use crate::{ctx::CaseOut, Params};
-pub fn case(_idx: u64, _seed: u64, _p: &Params, o: &mut CaseOut) {
-    o.skipped = true;
+//! C17 — results never depend on the number of worker threads or their
+//! interleaving.
+
+use crate::ctx::CaseOut;
+use crate::events::check_tiling;
+use crate::gen;
+use crate::model::Model;
+use crate::obs::observe;
+use crate::props::c11::{hook_begin, hook_end};
+use crate::props::c15::{arcs_hash, check_erdos, check_tournament};
+use crate::reprs::*;
+use crate::rng::{Fp, Rng};
+use crate::Params;
+use graaf::verif as hk;
+use graaf::*;
+
+pub const ORDERS: [usize; 17] = [1, 2, 3, 4, 5, 7, 8, 9, 15, 16, 17, 31, 33, 47, 64, 65, 100];
+pub const OPS: [&str; 8] = [
+    "AdjacencyList::complement",
+    "AdjacencyList::complete",
+    "AdjacencyList::degree_sequence",
+    "AdjacencyList::is_semicomplete",
+    "AdjacencyList::union",
+    "AdjacencyMap::union",
+    "AdjacencyMap::random_tournament",
+    "AdjacencyMap::erdos_renyi",
+];
+
+fn tile(o: &mut CaseOut, ev: &[(u64, u64, usize, usize)], site: u64, total: usize, allow_empty: bool, what: &str) {
+    match check_tiling(ev, site, total, allow_empty, o, what) {
+        Some(t) => {
+            o.sigs.push((site, t.signature));
+            o.bumpn("workers", t.workers);
+        }
+        None => o.bump("hook_log_empty"),
+    }
+}
+
+/// A digraph that is semicomplete except (maybe) for one pair located in the
+/// first / last / a random chunk of rows.
+fn semicomplete_family(r: &mut Rng, n: usize) -> Model {
+    let mut m = gen::tournament(r, n);
+    for u in 0..n {
+        for v in 0..n {
+            if u != v && r.chance(0.2) {
+                m.add(u, v, 1);
+            }
+        }
+    }
+    if n >= 2 {
+        match r.below(4) {
+            0 => {}
+            1 => {
+                m.remove(0, 1);
+                m.remove(1, 0);
+            }
+            2 => {
+                m.remove(n - 2, n - 1);
+                m.remove(n - 1, n - 2);
+            }
+            _ => {
+                let u = r.below(n);
+                let v = (u + 1 + r.below(n - 1)) % n;
+                m.remove(u, v);
+                m.remove(v, u);
+            }
+        }
+    }
+    m
+}
+
+pub fn case(idx: u64, seed: u64, p: &Params, o: &mut CaseOut) {
+    let mut r = Rng::for_case(17, seed, idx);
+    let max = p.usize("max_order", 100);
+    let op = (idx as usize) % OPS.len();
+    let pick_n = |r: &mut Rng| -> usize { (*r.pick(&ORDERS)).min(max) };
+    let n = pick_n(&mut r);
+    let t = std::thread::available_parallelism().map_or(1, |x| x.get());
+    let dens = *r.pick(&[0.0, 0.1, 0.5, 0.9, 1.0]);
+    let mut fp = Fp::new();
+    fp.s(OPS[op]).us(n);
+    let mut desc = String::new();
+    let mut rows = n;
+    match op {
+        0 => {
+            let m = gen::random_arcs(&mut r, n, dens);
+            let d = AdjacencyList::build(&m);
+            hook_begin(p, idx);
+            let c = d.complement();
+            let ev = hook_end();
+            observe(&c, &m.complement(), o, OPS[op], n <= 33);
+            tile(o, &ev, hk::AL_COMPLEMENT, n, false, OPS[op]);
+            m.fingerprint(&mut fp);
+            o.digest.push((fp.0, arcs_hash(&c), false));
+            if o.want_desc {
+                desc = m.describe();
+            }
+        }
+        1 => {
+            hook_begin(p, idx);
+            let c = AdjacencyList::complete(n);
+            let ev = hook_end();
+            let mut rr = Rng(0);
+            observe(&c, &gen::family(&mut rr, 2, n), o, OPS[op], n <= 33);
+            if n > 1 {
+                tile(o, &ev, hk::AL_COMPLETE, n, false, OPS[op]);
+            }
+            o.digest.push((fp.0, arcs_hash(&c), false));
+            desc = format!("order {n}");
+        }
+        2 => {
+            let m = gen::random_arcs(&mut r, n, dens);
+            let d = AdjacencyList::build(&m);
+            hook_begin(p, idx);
+            let got: Vec<usize> = d.degree_sequence().collect();
+            let ev = hook_end();
+            let want: Vec<usize> = (0..n).map(|v| m.indeg(v) + m.outdeg(v)).collect();
+            o.eq(OPS[op], &got, &want);
+            tile(o, &ev, hk::AL_DEGREE_SEQUENCE, n, false, OPS[op]);
+            m.fingerprint(&mut fp);
+            let mut h = Fp::new();
+            for x in &got {
+                h.us(*x);
+            }
+            o.digest.push((fp.0, h.0, false));
+            if o.want_desc {
+                desc = m.describe();
+            }
+        }
+        3 => {
+            let m = semicomplete_family(&mut r, n);
+            let d = AdjacencyList::build(&m);
+            hook_begin(p, idx);
+            let got = d.is_semicomplete();
+            let ev = hook_end();
+            o.eq(OPS[op], &got, &m.is_semicomplete());
+            if n > 1 && m.size() >= n * (n - 1) / 2 {
+                tile(o, &ev, hk::AL_IS_SEMICOMPLETE, n, false, OPS[op]);
+            }
+            m.fingerprint(&mut fp);
+            o.digest.push((fp.0, got as u64, false));
+            if o.want_desc {
+                desc = m.describe();
+            }
+        }
+        4 | 5 => {
+            let n2 = match r.below(4) {
+                0 => n,
+                1 => (n + 1).min(max),
+                2 => n / 2 + 1,
+                _ => pick_n(&mut r),
+            };
+            let ma = gen::random_arcs(&mut r, n, dens);
+            let d2 = *r.pick(&[0.0, 0.1, 0.5, 1.0]);
+            let mut mb = gen::random_arcs(&mut r, n2, d2);
+            ma.fingerprint(&mut fp);
+            if op == 4 {
+                mb.fingerprint(&mut fp);
+                let (a, b) = (AdjacencyList::build(&ma), AdjacencyList::build(&mb));
+                hook_begin(p, idx);
+                let u = a.union(&b);
+                let ev = hook_end();
+                let mut want = ma.union(&mb);
+                want.verts = (0..n.max(n2)).collect();
+                observe(&u, &want, o, OPS[op], n.max(n2) <= 33);
+                tile(o, &ev, hk::AL_UNION, n.max(n2), false, OPS[op]);
+                o.digest.push((fp.0, arcs_hash(&u), false));
+                rows = n.max(n2);
+            } else {
+                // equal keys straddle the merge-path boundaries when both
+                // operands are contiguous; sometimes shift / sparsify B
+                let mut ma2 = ma.clone();
+                match r.below(4) {
+                    0 => mb = gen::sparsify(&mut r, &mb),
+                    1 => {
+                        let sh = r.range(1, n.max(1));
+                        mb = Model {
+                            verts: mb.verts.iter().map(|v| v + sh).collect(),
+                            arcs: mb.arcs.iter().map(|(&(u, v), &w)| ((u + sh, v + sh), w)).collect(),
+                        };
+                    }
+                    2 => ma2 = gen::sparsify(&mut r, &ma),
+                    _ => {}
+                }
+                ma2.fingerprint(&mut fp);
+                mb.fingerprint(&mut fp);
+                let (a, b) = (build_map_any(&ma2), build_map_any(&mb));
+                hook_begin(p, idx);
+                let u = a.union(&b);
+                let ev = hook_end();
+                observe(&u, &ma2.union(&mb), o, OPS[op], ma2.n() + mb.n() <= 40);
+                tile(o, &ev, hk::AM_UNION_LHS, ma2.n(), true, "AdjacencyMap::union(lhs)");
+                tile(o, &ev, hk::AM_UNION_RHS, mb.n(), true, "AdjacencyMap::union(rhs)");
+                o.digest.push((fp.0, arcs_hash(&u), false));
+                rows = ma2.n() + mb.n();
+                if o.want_desc {
+                    desc = format!("A: {} B: {}", ma2.describe(), mb.describe());
+                }
+            }
+            if o.want_desc && desc.is_empty() {
+                desc = format!("A: {} B: {}", ma.describe(), mb.describe());
+            }
+        }
+        6 => {
+            let s = *r.pick(&[0u64, 1, u64::MAX, 42]);
+            fp.u(s);
+            hook_begin(p, idx);
+            let d = AdjacencyMap::random_tournament(n, s);
+            let ev = hook_end();
+            check_tournament(&d, n, o, "AdjacencyMap");
+            if n > 1 {
+                tile(o, &ev, hk::AM_RANDOM_TOURNAMENT, n, false, OPS[op]);
+            }
+            // must repeat exactly within this configuration
+            o.check(d == AdjacencyMap::random_tournament(n, s), "AdjacencyMap::random_tournament:not-repeatable", || format!("order {n} seed {s}"));
+            o.digest.push((fp.0, arcs_hash(&d), true));
+            desc = format!("order {n} seed {s}");
+        }
+        _ => {
+            let s = *r.pick(&[0u64, 1, u64::MAX, 42]);
+            let pr: f64 = *r.pick(&[0.0, 0.25, 0.5, 0.75, 1.0]);
+            fp.u(s).u(pr.to_bits());
+            hook_begin(p, idx);
+            let d = AdjacencyMap::erdos_renyi(n, pr, s);
+            let ev = hook_end();
+            check_erdos(&d, n, pr, o, "AdjacencyMap");
+            if n > 1 {
+                tile(o, &ev, hk::AM_ERDOS_RENYI, n, false, OPS[op]);
+            }
+            o.check(d == AdjacencyMap::erdos_renyi(n, pr, s), "AdjacencyMap::erdos_renyi:not-repeatable", || format!("order {n} p {pr} seed {s}"));
+            o.digest.push((fp.0, arcs_hash(&d), true));
+            desc = format!("order {n} p {pr} seed {s}");
+        }
+    }
+    o.fp = fp.0;
+    o.nontrivial = rows > t;
+    o.bump(OPS[op]);
+    o.bumpn("threads_available", t);
+    o.bumpn("order", n);
+    if o.want_desc {
+        o.desc = format!("{} {desc} (available_parallelism {t})", OPS[op]);
+    }
 }
